@@ -50,7 +50,8 @@ type wsOp struct {
 	files   []bfile
 	srcs    []string
 	targets []string
-	wd      string // work dir of the builder, relative to <root>/src ("" = the workspace root)
+	more    [][]string // further Build calls on the SAME Builder: their target lists (t2, t3)
+	wd      string     // work dir of the builder, relative to <root>/src ("" = the workspace root)
 	ar      bool   // Config.AlwaysRebuild: the build cache never answers, only buildNode's memo prevents a second execution
 }
 
@@ -109,6 +110,9 @@ func (o *wsOp) line() string {
 		bf = strings.Join(fs, ";")
 	}
 	l := fmt.Sprintf("run dirs=%s bf=%s src=%s t=%s", hlist(o.dirs, ","), bf, hlist(o.srcs, ","), hlist(o.targets, ","))
+	for i, t := range o.more {
+		l += fmt.Sprintf(" t%d=%s", i+2, hlist(t, ","))
+	}
 	if o.wd != "" {
 		l += " wd=" + hs(o.wd)
 	}
@@ -141,6 +145,11 @@ func parseOp(line string) (*wsOp, bool) {
 		return nil, false
 	}
 	o.dirs, o.srcs, o.targets = unlist(d, ","), unlist(s, ","), unlist(t, ",")
+	for _, k := range []string{"t2", "t3"} {
+		if v, ok := kv(ws[1:], k); ok {
+			o.more = append(o.more, unlist(v, ","))
+		}
+	}
 	if v, ok := kv(ws[1:], "wd"); ok {
 		o.wd = string(hx.UnHex(v))
 	}
@@ -307,7 +316,24 @@ func childRun(work string, n int, line string) string {
 	if _, errs := b.ReadWorkspace(); errs != nil {
 		return "err-workspace"
 	}
-	errs := b.Build(o.targets)
+	var answers []string
+	for _, targets := range append([][]string{o.targets}, o.more...) {
+		buf.Reset()
+		answers = append(answers, oneBuild(b, &buf, targets))
+	}
+	return strings.Join(answers, " ;; ")
+}
+
+// oneBuild: one Build call; the error classes (and whatever was executed
+// although the call failed) or the BUILD lines in order
+func oneBuild(b *caco3.Builder, buf *bytes.Buffer, targets []string) string {
+	errs := b.Build(targets)
+	var names []string
+	for _, l := range strings.Split(buf.String(), "\n") {
+		if strings.HasPrefix(l, "BUILD ") {
+			names = append(names, strings.TrimPrefix(l, "BUILD "))
+		}
+	}
 	if errs != nil {
 		set := map[string]bool{}
 		for _, e := range errs {
@@ -322,13 +348,11 @@ func childRun(work string, n int, line string) string {
 			cs = append(cs, c)
 		}
 		sort.Strings(cs)
-		return "failed " + strings.Join(cs, ",")
-	}
-	var names []string
-	for _, l := range strings.Split(buf.String(), "\n") {
-		if strings.HasPrefix(l, "BUILD ") {
-			names = append(names, strings.TrimPrefix(l, "BUILD "))
+		a := "failed " + strings.Join(cs, ",")
+		if len(names) > 0 {
+			a += " ran=" + hlist(names, ",")
 		}
+		return a
 	}
 	return "built " + hlist(names, ",")
 }
@@ -604,7 +628,53 @@ func maxGarbage(o *wsOp) int {
 
 // judge evaluates the direct oracle on one implementation answer.
 func judge(o *wsOp, impl string) (key, desc string) {
+	if len(o.more) > 0 && impl != "crash" && impl != "hang" {
+		parts := strings.Split(impl, " ;; ")
+		calls := append([][]string{o.targets}, o.more...)
+		for i, part := range parts {
+			if i >= len(calls) {
+				break
+			}
+			one := *o
+			one.more = nil
+			one.targets = calls[i]
+			k, d := judgeCall(&one, part, i > 0 && !o.ar)
+			if k != "" {
+				if i > 0 {
+					return "later-build-differs-from-fresh-builder", fmt.Sprintf(
+						"Build call %d on the same Builder (targets %q, after %q): %s", i+1, calls[i], calls[:i], d)
+				}
+				return k, d
+			}
+		}
+		return "", ""
+	}
+	if len(o.more) > 0 {
+		what := map[string]string{"crash": "killed the process (stack overflow)", "hang": "did not return"}[impl]
+		if read(o).selfRef == false && maxGarbage(o) == 0 {
+			return "later-build-differs-from-fresh-builder", fmt.Sprintf("a history of Build calls %q then %q on one Builder %s", o.targets, o.more, what)
+		}
+	}
+	return judgeCall(o, impl, false)
+}
+
+// judgeCall: one Build call; warm = an earlier call of the history may have
+// filled the cache, so not every reachable rule has to execute again
+func judgeCall(o *wsOp, impl string, warm bool) (key, desc string) {
+	if i := strings.Index(impl, " ran="); i >= 0 && strings.HasPrefix(impl, "failed ") {
+		r := read(o)
+		_, cycle, dangling := r.analyse(o)
+		if len(r.errClasses) > 0 || cycle || dangling {
+			return "rule-executed-although-load-failed", fmt.Sprintf(
+				"the workspace has a duplicate / unnamed rule / reachable cycle / dangling dependency, the build failed (%s), but rules were executed first: %q",
+				impl[:i], unlist(impl[i+5:], ","))
+		}
+		impl = impl[:i] // a build step failed after the load succeeded
+	}
 	key, desc = judge0(o, impl)
+	if warm && key == "reachable-rule-not-built" {
+		key, desc = "", ""
+	}
 	if key == "" || o.wd == "" {
 		return
 	}
@@ -1060,6 +1130,118 @@ func (g *gen) syntaxErrors() {
 	g.rep.Count("syntax-errors:spread")
 }
 
+// two and three Build calls on ONE Builder: a failing call (dangling dependency,
+// cycle, duplicate) must not change what a later call does
+func (g *gen) histories() {
+	b := func(n string, deps ...string) decl { return decl{kind: 'b', name: n, a: deps} }
+	f := func(n string, files []string, incs ...string) decl { return decl{kind: 'f', name: n, a: files, b: incs} }
+	type wsd struct {
+		tag   string
+		decls []decl
+	}
+	wss := []wsd{
+		{"dangling", []decl{b("a", "b", "m"), b("b", "s"), b("c", "b"), b("d", "a")}},
+		{"dangling-deep", []decl{b("a", "b"), b("b", "c"), b("c", "m"), b("d")}},
+		{"cycle", []decl{b("a", "b"), b("b", "c"), b("c", "a"), b("d", "s"), b("e", "a")}},
+		{"self-loop", []decl{b("a", "a"), b("b", "a"), b("c")}},
+		{"sound", []decl{b("a", "b", "c"), b("b", "d"), b("c", "d"), b("d", "s"), f("x", []string{"s"})}},
+		{"duplicate", []decl{b("a"), b("a", "s"), b("c")}},
+	}
+	for _, w := range wss {
+		var names []string
+		for _, d := range w.decls {
+			names = append(names, "p/"+d.name)
+		}
+		names = sortedSet(names)
+		names = append(names, "p/s", "p/m")
+		for _, t1 := range names {
+			for _, t2 := range names {
+				for _, ar := range []bool{false, true} {
+					g.add(&wsOp{dirs: []string{"p"}, files: []bfile{{dir: "p", decls: w.decls}}, srcs: []string{"p/s"},
+						targets: []string{t1}, more: [][]string{{t2}}, ar: ar}, true)
+					g.rep.Count("history:two-builds:" + w.tag)
+				}
+			}
+		}
+		for k := 0; k < 12; k++ {
+			pick := func() []string {
+				t := []string{hx.Pick(g.r, names)}
+				if g.r.Intn(3) == 0 {
+					t = append(t, hx.Pick(g.r, names))
+				}
+				return t
+			}
+			g.add(&wsOp{dirs: []string{"p"}, files: []bfile{{dir: "p", decls: w.decls}}, srcs: []string{"p/s"},
+				targets: pick(), more: [][]string{pick(), pick()}, ar: k%2 == 0}, true)
+			g.rep.Count("history:three-builds:" + w.tag)
+		}
+	}
+}
+
+// build files with two and three sub_builds statements naming different
+// directories: every one of them is read (duplicates and unnamed rules in any of
+// them are reported, sound graphs over any of them load)
+func (g *gen) severalSubBuilds() {
+	b := func(n string, deps ...string) decl { return decl{kind: 'b', name: n, a: deps} }
+	sub := func(d ...string) decl { return decl{kind: 's', a: d} }
+	q := bfile{dir: "p/q", decls: []decl{b("a")}}
+	r := bfile{dir: "p/r", decls: []decl{b("a", "/p/q/a")}}
+	t := bfile{dir: "p/t", decls: []decl{b("a", "/p/r/a")}}
+	tops := [][]decl{
+		{sub("q"), sub("r"), b("top", "q/a", "r/a")},
+		{sub("r"), sub("q"), b("top", "q/a", "r/a")},
+		{sub("q"), b("top", "q/a", "r/a", "t/a"), sub("r"), sub("t")},
+		{sub("t"), sub("r", "q"), b("top", "t/a")},
+		{sub("q", "r"), sub("t"), b("top", "t/a")},
+		{sub("q"), sub("q"), sub("r"), b("top", "r/a")},
+	}
+	for _, top := range tops {
+		for _, targets := range [][]string{{"p/top"}, {"p/q/a"}, {"p/r/a"}, {"p/t/a"}, {"p/q/a", "p/t/a", "p/top"}} {
+			g.add(&wsOp{dirs: []string{"p"}, files: []bfile{{dir: "p", decls: top}, q, r, t}, targets: targets}, true)
+			// a duplicate of p/top, an unnamed rule, a syntax error in one of the sub directories
+			for _, bad := range []bfile{
+				{dir: "p/q", decls: []decl{b("a"), b("/p/top")}},
+				{dir: "p/q", decls: []decl{b("a"), b(".")}},
+				{dir: "p/r", decls: []decl{b("a"), b("/p/q/a")}},
+				{dir: "p/t", decls: []decl{b("a"), b("../t")}},
+			} {
+				fs := []bfile{{dir: "p", decls: top}}
+				for _, x := range []bfile{q, r, t} {
+					if x.dir == bad.dir {
+						x = bad
+					}
+					fs = append(fs, x)
+				}
+				g.add(&wsOp{dirs: []string{"p"}, files: fs, targets: targets}, true)
+			}
+			g.rep.Count("several-sub-builds-statements")
+		}
+	}
+}
+
+// a BUILD.caco3 in the workspace root (outside src) that no repo-map key and no
+// sub_builds entry names: it is never read, whether its rule names clash with
+// rules inside src or not
+func (g *gen) rootBuildFile() {
+	b := func(n string, deps ...string) decl { return decl{kind: 'b', name: n, a: deps} }
+	sub := func(d ...string) decl { return decl{kind: 's', a: d} }
+	roots := []bfile{
+		{dir: "", decls: []decl{b("p/a")}},       // clashes with p/a
+		{dir: "", decls: []decl{b("stranger")}},  // no clash
+		{dir: "", decls: []decl{b("p/q/b", "stranger"), b("stranger")}},
+		{dir: "", decls: []decl{{kind: 'x', name: "notype", a: []string{"3"}}}},
+	}
+	for _, root := range roots {
+		for _, top := range [][]decl{{b("a", "q/b"), sub("q")}, {sub("q", "r"), b("a")}, {b("a")}, {sub("q"), sub("r"), b("a", "q/b")}} {
+			for _, targets := range [][]string{{"p/a"}, {"p/q/b"}, {"stranger"}, {"p/a", "stranger"}} {
+				g.add(&wsOp{dirs: []string{"p"}, targets: targets, files: []bfile{
+					root, {dir: "p", decls: top}, {dir: "p/q", decls: []decl{b("b")}}, {dir: "p/r", decls: []decl{b("c")}}}}, true)
+				g.rep.Count("root-build-file-outside-src")
+			}
+		}
+	}
+}
+
 // random graphs over several packages
 func (g *gen) randomGraphs(n int, maxRules int) {
 	for i := 0; i < n; i++ {
@@ -1319,7 +1501,7 @@ func main() {
 	rep.Rule = "one op = one scratch workspace (bundle / file_set / sub_builds declarations over 1-3 packages, source files) + targets, " +
 		"built by the real Builder in a child process (every second op with AlwaysRebuild): all graphs of 2 rules over {r0, r1, source, missing} and of 3 (thorough: 4) rules over the rules x target subsets, " +
 		"every declaration permutation x target subset of fixed shapes (diamond, chain, self-loop, 2/4-cycle, cycle behind the memo, dangling, duplicate, output/rule collision, file sets, unnamed) and random 2-3 rule graphs, " +
-		"build files with 1..100 statements that do not parse (below, at, above the error cap), builders started in work dirs at depth 0..2 with relative, ./, ../ and absolute targets over same-named nodes, target lists with source files before, between and after rule targets, sub-build directory strings (., empty, x/.., q, /q, ../q ...) singly and in pairs, random multi-package graphs (duplicates across files, long cycles, dangling, collisions, unnamed), long chains; " +
+		"histories of two and three Build calls on one Builder (first failing or sound), build files with several sub_builds statements, a BUILD.caco3 in the workspace root outside src, build files with 1..100 statements that do not parse (below, at, above the error cap), builders started in work dirs at depth 0..2 with relative, ./, ../ and absolute targets over same-named nodes, target lists with source files before, between and after rule targets, sub-build directory strings (., empty, x/.., q, /q, ../q ...) singly and in pairs, random multi-package graphs (duplicates across files, long cycles, dangling, collisions, unnamed), long chains; " +
 		"distinct = distinct op line; every op is non-trivial (it loads at least one build file)"
 	work := f.Work
 	if work == "" {
@@ -1363,6 +1545,9 @@ func main() {
 		g.sourceTargets()
 		g.workDirs()
 		g.syntaxErrors()
+		g.histories()
+		g.severalSubBuilds()
+		g.rootBuildFile()
 		g.shapes()
 		g.longChains()
 		if f.Thorough() {
@@ -1449,9 +1634,22 @@ func main() {
 			if m == "outOfFuel" && (im == "crash" || im == "hang") {
 				continue // the model says "does not terminate", the process died or hung
 			}
-			if strings.Contains(im, "other:") {
+			if strings.Contains(im, "other:") && !strings.Contains(im, " ran=") {
 				rep.Count("build-step-error(not compared)")
 				continue
+			}
+			if strings.Contains(ops[i], " t2=") && !strings.Contains(ops[i], " ar=1") {
+				// later calls meet a warm cache: only the kind of answer is compared
+				canon := func(a string) string {
+					ps := strings.Split(a, " ;; ")
+					for k := 1; k < len(ps); k++ {
+						if strings.HasPrefix(ps[k], "built") {
+							ps[k] = "built"
+						}
+					}
+					return strings.Join(ps, " ;; ")
+				}
+				im, m = canon(im), canon(m)
 			}
 			if im != m {
 				rep.Disagree("loader", ops[i], im, m)
